@@ -55,14 +55,25 @@ def extract(ctx):
     t = rw.sub(t, r'd1::task_group_context::may_have_children', 'may_have_children', 2, name='enum scope')
     t = rw.sub(t, r'd1::task_group_context::state::locked', 'state_locked', 1, name='enum scope')
     t = rw.sub(t, r'register_with\(ctx, td\);', 'STUB_register_with(ctx, td);', 2, 2, name='callee stub (makes the context reachable by propagators)')
-    t = rw.sub(t, r'the_context_state_propagation_epoch\.load\(std::memory_order_relaxed\)', 'STUB_global_epoch()', 1, 1, name='callee stub')
-    t = rw.sub(t, r'ctx->my_parent->my_context_list->epoch\.load\(std::memory_order_acquire\)', 'STUB_list_epoch(ctx->my_parent)', 1, 1, name='callee stub')
-    t = rw.sub(t, r'context_state_propagation_mutex_type::scoped_lock lock\(the_context_state_propagation_mutex\);', 'STUB_lock_propagation_mutex();', 1, 1, name='lock-decl')
-    t = rw.atomics(t, ['my_cancellation_requested', 'my_may_have_children', 'my_state'], 5)
+    mb = re.findall(r'\w+::scoped_lock \w+\(([^)]*)\);', t)
+    t = rw.scoped_locks(t, r'\w+::scoped_lock \w+\(([^)]*)\);', 0, None)
+    ctx.binder_mutexes = [x.strip() for x in mb]
+    t = rw.atomics(t, ['my_cancellation_requested', 'my_may_have_children', 'my_state', 'epoch', 'the_context_state_propagation_epoch'], 5)
     t = rw.asserts(t, 3)
     t = rw.std(t)
     t = rw.number_sites(t, 'bind', by_kind=True)
     out.append(t)
+    s = slice_block(TG, r'void task_group_context_impl::register_with\(d1::task_group_context& ctx, thread_data\* td\)')
+    sliced.append('%s:%d register_with' % (TG, s.line))
+    t = rw.sub(s.text, r'void task_group_context_impl::register_with\(d1::task_group_context& ctx, thread_data\* td\)', 'void register_with(struct tgc* ctx, struct thread_data* td)', 1, 1, name='sig')
+    t = rw.sub(t, r'__TBB_ASSERT\(!is_poisoned\(ctx\.my_context_list\), nullptr\);', 'RG_NOP();', 1, 1, name='poison check -> RG_NOP')
+    t = rw.sub(t, r'\bctx\.', 'ctx->', 2, name='ref-param')
+    t = rw.sub(t, r'ctx->my_context_list->push_front\(ctx->my_node\);', 'LIST_PUSH_FRONT(ctx->my_context_list, ctx);', 0, None, name='context_list::push_front (locks the list mutex: checked textually) -> one atomic list insertion')
+    t = rw.asserts(t, 1)
+    t = rw.std(t)
+    out.insert(0, t)
+    if not re.search(r'void push_front\(d1::intrusive_list_node& val\) \{\s*mutex::scoped_lock lock\(m_mutex\);\s*intrusive_list<d1::intrusive_list_node>::push_front\(val\);\s*\}', load('src/tbb/thread_data.h')):
+        raise ExtractionBreak('context_list::push_front no longer inserts under m_mutex')
     s = slice_block(TG, r'void task_group_context_impl::bind_to\(d1::task_group_context& ctx, thread_data\* td\)')
     sliced.append('%s:%d bind_to' % (TG, s.line))
     t = cxx2c.cpp_resolve(s.text, {'__INTEL_COMPILER': None}, 'bind_to')
@@ -85,7 +96,52 @@ def extract(ctx):
     out.append(t)
     common.write(ctx, 'tgc.inc', '\n'.join(out) + '\n')
     fired['task_group_context'] = rw.fired
+    extract_walk(ctx, sliced, fired)
     return sliced, fired
+
+
+CD = 'src/tbb/cancellation_disseminator.h'
+TDH = 'src/tbb/thread_data.h'
+
+
+def extract_walk(ctx, sliced, fired):
+    """the propagator: cancellation_disseminator::propagate_task_group_state and thread_data::propagate_task_group_state"""
+    rw = Rewriter('propagator')
+    s = slice_block(CD, r'bool propagate_task_group_state\(std::atomic<uint32_t> d1::task_group_context::\*mptr_state, d1::task_group_context& src, uint32_t new_state\)')
+    sliced.append('%s:%d cancellation_disseminator::propagate_task_group_state' % (CD, s.line))
+    t = rw.sub(s.text, r'bool propagate_task_group_state\(std::atomic<uint32_t> d1::task_group_context::\*mptr_state, d1::task_group_context& src, uint32_t new_state\)',
+               'bool dissem_propagate(struct dissem* self, struct tgc* src, uint32_t new_state)', 1, 1, name='sig (member pointer bound to my_cancellation_requested)')
+    mp = re.findall(r'\w+::scoped_lock \w+\(([^)]*)\);', t)
+    ctx.propagator_mutexes = [x.strip() for x in mp]
+    t = rw.scoped_locks(t, r'\w+::scoped_lock \w+\(([^)]*)\);', 0, None)
+    t = rw.sub(t, r'\(src\.\*mptr_state\)\.load\(std::memory_order_relaxed\)', 'P_LOAD(src->my_cancellation_requested)', 1, 1, name='member-pointer load')
+    t = rw.sub(t, r'\bsrc\.', 'src->', 1, name='ref-param')
+    t = rw.sub(t, r'd1::task_group_context::may_have_children', 'may_have_children', 1, name='enum scope')
+    t = rw.sub(t, r'\+\+the_context_state_propagation_epoch;', 'ATOMIC_PREINC(the_context_state_propagation_epoch);', 0, None, name='atomic ++ (global epoch)')
+    t = rw.sub(t, r'for \(auto& thr_data : my_threads_list\) \{', 'for (size_t it_ = 0; it_ < LIST_SIZE(my_threads_list); ++it_) { struct thread_data* thr_data = LIST_AT(my_threads_list, it_);', 1, 1, name='range-for over intrusive_list -> indexed loop over its sequence')
+    t = rw.sub(t, r'thr_data\.propagate_task_group_state\(mptr_state, src, new_state\);', 'td_propagate(thr_data, src, new_state);', 1, 1, name='method')
+    t = rw.sub(t, r'(?<![\w.>])(my_threads_list_mutex|my_threads_list)\b', r'self->\1', 2, name='field')
+    t = rw.atomics(t, ['my_may_have_children'], 1)
+    t = rw.std(t)
+    t = rw.number_sites(t, 'dis', by_kind=True)
+    t = tag_loops(t, 'dis', rw, expect=1)
+    common.write(ctx, 'dissem.inc', t + '\n')
+    s = slice_block(TDH, r'inline void thread_data::propagate_task_group_state\(std::atomic<std::uint32_t> d1::task_group_context::\* mptr_state, d1::task_group_context& src, std::uint32_t new_state\)')
+    sliced.append('%s:%d thread_data::propagate_task_group_state' % (TDH, s.line))
+    t = rw.sub(s.text, r'inline void thread_data::propagate_task_group_state\(std::atomic<std::uint32_t> d1::task_group_context::\* mptr_state, d1::task_group_context& src, std::uint32_t new_state\)',
+               'void td_propagate(struct thread_data* self, struct tgc* src, uint32_t new_state)', 1, 1, name='sig (member pointer bound to my_cancellation_requested)')
+    t = rw.scoped_locks(t, r'\w+::scoped_lock \w+\(([^)]*)\);', 0, None)
+    t = rw.sub(t, r'for \(context_list::iterator it = my_context_list->begin\(\); it != my_context_list->end\(\); \+\+it\) \{', 'for (size_t it = 0; it != LIST_SIZE(my_context_list); ++it) {', 1, 1, name='iterator loop over intrusive_list -> indexed loop over its sequence')
+    t = rw.sub(t, r'd1::task_group_context& ctx = __TBB_get_object_ref\(d1::task_group_context, my_node, &\(\*it\)\);', 'struct tgc* ctx = LIST_AT(my_context_list, it);', 1, 1, name='node -> object')
+    t = rw.sub(t, r'\(ctx\.\*mptr_state\)\.load\(std::memory_order_relaxed\)', 'P_LOAD(ctx->my_cancellation_requested)', 1, 1, name='member-pointer load')
+    t = rw.sub(t, r'task_group_context_impl::propagate_task_group_state\(ctx, mptr_state, src, new_state\);', 'propagate_task_group_state(ctx, src, new_state);', 1, 1, name='callee (task_group_context_impl, proved in propagate.path)')
+    t = rw.sub(t, r'(?<![\w.>])my_context_list\b', 'self->my_context_list', 3, name='field')
+    t = rw.atomics(t, ['epoch', 'the_context_state_propagation_epoch'], 0)
+    t = rw.std(t)
+    t = rw.number_sites(t, 'tdp', by_kind=True)
+    t = tag_loops(t, 'tdp', rw, expect=1)
+    common.write(ctx, 'tdwalk.inc', t + '\n')
+    fired['propagator'] = rw.fired
 
 
 def build(ctx):
@@ -98,6 +154,11 @@ def build(ctx):
             target='task_group_context_impl::propagate_task_group_state', source=TG),
         Job('bind.no_missed_cancel.atomic_copy', C, 'h_bind_impl', route='RG', defines=['BINDIMPL', 'ATOMIC_COPY'], target='task_group_context_impl::bind_to_impl (parent without grand-ancestor) against a concurrent canceller of the parent; the final state copy taken as one atomic step', source=TG),
         Job('bind.no_missed_cancel.real', C, 'h_bind_impl', route='RG', defines=['BINDIMPL'], target='task_group_context_impl::bind_to_impl, the state copy as the separate load and store it is', source=TG),
+        Job('walk.disseminator', C, 'h_dissem', route='LC', loops=True, nloops=1, defines=['DISSEM', 'BINDER_SLOW_MUTEX=' + (ctx.binder_mutexes[0] if ctx.binder_mutexes else '0')],
+            target='cancellation_disseminator::propagate_task_group_state (any number of threads)', source=CD),
+        Job('walk.thread_list', C, 'h_tdwalk', route='LC', loops=True, nloops=1, defines=['TDWALK'], target='thread_data::propagate_task_group_state (any list length)', source=TDH),
+        Job('bind.grand_ancestor', C, 'h_bind_ga', route='RG', defines=['BINDGA', 'PROP_HOLDS_BINDER_MUTEX=%d' % (1 if ctx.binder_mutexes and ctx.binder_mutexes[0] in ctx.propagator_mutexes else 0)], unwind=8,
+            target='task_group_context_impl::bind_to_impl + register_with (parent with a grand-ancestor) against one concurrent propagation', source=TG),
         Job('bind.one_binder', C, 'h_bind_to', route='RG', defines=['BINDTO'], target='task_group_context_impl::bind_to (state word created->locked->bound|isolated)', source=TG),
     ]
     return {
@@ -112,4 +173,20 @@ def build(ctx):
 
 
 def replay(ctx, jobname, failure):
-    return {'reproduced': False, 'detail': 'no native recipe: the window between registration and the state copy needs a stalled thread inside register_with (see seeded/C04-1/demo.cpp for a white-box scenario)'}
+    if not (jobname.startswith('walk.') or jobname == 'bind.grand_ancestor'):
+        return {'reproduced': False, 'detail': 'no native recipe: the window between registration and the state copy needs a stalled thread inside register_with (see seeded/C04-1/demo.cpp for a white-box scenario)'}
+    exe = native.build([os.path.join(HERE, 'c04_replay.cpp')], os.path.join(ctx.work, 'c04_replay'), link_tbb=True, flags=['-fno-access-control'], includes=[os.path.join(ctx.repo, 'src')])
+    rep = {'reproduced': False, 'detail': 'native schedules (propagator_first, binder_first) both ended with the bound context cancelled', 'runs': []}
+    for sched in ('binder_first', 'propagator_first'):
+        rc, out = native.run([exe, sched], timeout=120)
+        rep['runs'].append({'cmd': exe + ' ' + sched, 'rc': rc, 'output': out[-600:]})
+        m = re.search(r'REPRODUCED (.*)', out)
+        if m:
+            rep['reproduced'] = True
+            rep['detail'] = m.group(1)
+            w = re.search(r'class=(\S+)', m.group(1))
+            rep['witness_class'] = (w.group(1) if w else '') + ':' + sched
+            break
+        if rc == 3 and sched == 'binder_first' and 'slow path blocked' in out:
+            rep['runs'][-1]['note'] = 'the binder could not finish while the propagator was parked: the slow path is excluded by the propagation (correct protocol)'
+    return rep
